@@ -25,28 +25,28 @@ bool build_check(const std::string& prop, const std::string& tier, CheckSpec& s,
         s.level = "fault_enumeration";
         s.rule = "case = (group, form, fault token(s), source element, model verdict) of one damaged-or-intact encoding delivered to both decoders; distinct by that tuple; non-trivial iff the fault actually changed the bytes delivered";
         s.batches.push_back(mk("enc", q ? 16 : 16, FAST, "single", {{"enumerate", 1}, {"allbits", q ? 0 : 1}}, "enumeration of the single-fault set: every named Byzantine substitution and flag manipulation, a flip in every byte (every bit in thorough), for identity/generator/multiples in both groups and both forms"));
-        s.batches.push_back(mk("enc", q ? 150 : 6000, ALL, "single", {}, "seeded sampling of elements, positions and double faults"));
+        s.batches.push_back(mk("enc", q ? 1500 : 20000, ALL, "single", {}, "seeded sampling of elements, positions and double faults"));
         return true;
     }
     if (prop == "C11" || prop == "C12" || prop == "C13" || prop == "C14") {
         int focus = atoi(prop.c_str() + 1);
         s.rule = "case = one model-state transition or judged interaction of a WKD-IBE history: (op, parent pattern -> child pattern over {free, fixed(0), fixed(v), hidden}^l, omit-all flag) for key-producing steps; (from list -> to list) for adjustments; (key pattern, should-open) for decryptions; (signer pattern, extension size, mutation) for signatures; distinct by that tuple; non-trivial iff the step changes model state or is a negative/tampered case";
-        s.batches.push_back(mk("wkd", q ? 480 : 60000, FAST, "single", {{"focus", focus}}, "histories biased towards the ops of this property; party runs on a seed-chosen replica through a seed-chosen view (C or C++ API)"));
-        s.batches.push_back(mk("wkd", q ? 120 : 20000, FAST, "single", {{"focus", 0}}, "unbiased swarm mix"));
-        s.batches.push_back(mk("wkd", q ? 16 : 1500, {"C/portable32"}, "single", {{"focus", focus}, {"maxops", 12}}, "32-bit-word replica (10x slower)"));
+        s.batches.push_back(mk("wkd", q ? 1800 : 120000, FAST, "single", {{"focus", focus}}, "histories biased towards the ops of this property; party runs on a seed-chosen replica through a seed-chosen view (C or C++ API)"));
+        s.batches.push_back(mk("wkd", q ? 500 : 40000, FAST, "single", {{"focus", 0}}, "unbiased swarm mix"));
+        s.batches.push_back(mk("wkd", q ? 48 : 3000, {"C/portable32"}, "single", {{"focus", focus}, {"maxops", 12}}, "32-bit-word replica (10x slower)"));
         return true;
     }
     if (prop == "C15" || prop == "C17") {
         s.level = "fault_enumeration";
         s.rule = "case = one delivery of a marshalled object through the simulated store: (object kind, form, validating?, slot count, signature support, fault token(s) incl. target element and malformation kind, outcome); distinct by that tuple; non-trivial iff the delivered bytes differ from the bytes written";
-        s.batches.push_back(mk("wkd", 80, {"A/bmi2-adx", "B/portable64"}, "single", {{"hopenum", 1}, {"stride", q ? 5 : 1}}, "enumeration: every embedded element x every invalid-encoding kind, truncation lengths (every length in thorough, every 5th in quick), extensions, byte flips, junk buffers; 5 object kinds x 2 forms x validating/not x 4 shapes"));
-        s.batches.push_back(mk("wkd", q ? 64 : 6000, FAST, "single", {{"focus", 15}}, "histories with marshalling hops and restarts in between the scheme operations"));
+        s.batches.push_back(mk("wkd", 80, {"A/bmi2-adx", "B/portable64"}, "single", {{"hopenum", 1}, {"stride", q ? 2 : 1}}, "enumeration: every embedded element x every invalid-encoding kind, truncation lengths (every length in thorough, every 5th in quick), extensions, byte flips, junk buffers; 5 object kinds x 2 forms x validating/not x 4 shapes"));
+        s.batches.push_back(mk("wkd", q ? 300 : 12000, FAST, "single", {{"focus", 15}}, "histories with marshalling hops and restarts in between the scheme operations"));
         s.batches.push_back(mk("lq", 8, {"A/bmi2-adx", "B/portable64"}, "single", {{"hopenum", 1}}, "LQ-IBE objects: every embedded element x every invalid-encoding kind, both forms, validating and not"));
-        s.batches.push_back(mk("lq", q ? 48 : 4000, FAST, "single", {}, "LQ-IBE histories with marshalling hops"));
+        s.batches.push_back(mk("lq", q ? 200 : 8000, FAST, "single", {}, "LQ-IBE histories with marshalling hops"));
         if (prop == "C17") {
-            s.batches.push_back(mk("sample", q ? 32 : 2000, ALL, "single", {}, "samplers, hashing, target-group operations under ASan+UBSan"));
-            s.batches.push_back(mk("wkd", q ? 48 : 4000, ALL, "single", {{"focus", 0}}, "every API call sequence of the WKD-IBE properties under ASan+UBSan"));
-            s.batches.push_back(mk("enc", q ? 32 : 2000, ALL, "single", {}, "point decode of damaged bytes under ASan+UBSan"));
+            s.batches.push_back(mk("sample", q ? 100 : 4000, ALL, "single", {}, "samplers, hashing, target-group operations under ASan+UBSan"));
+            s.batches.push_back(mk("wkd", q ? 200 : 8000, ALL, "single", {{"focus", 0}}, "every API call sequence of the WKD-IBE properties under ASan+UBSan"));
+            s.batches.push_back(mk("enc", q ? 100 : 4000, ALL, "single", {}, "point decode of damaged bytes under ASan+UBSan"));
         }
         return true;
     }
@@ -55,57 +55,57 @@ bool build_check(const std::string& prop, const std::string& tier, CheckSpec& s,
         s.rule = prop == "C10"
             ? "case = one sampler / hash call under a scripted-or-fair random stream: (entry point, number of rejected candidates (capped), skipped hash-to-curve candidates, boundary class of the input); distinct by that tuple; non-trivial iff at least one stream fault fired or at least one candidate was rejected/skipped"
             : "case = one target-group operation: (entry point, exponent class or number of rejections); non-trivial iff the exponent came from a faulted stream or is >= r";
-        s.batches.push_back(mk("sample", q ? 400 : 40000, FAST, "single", {{"focus", focus}}, "stream faults: rejection storms, boundary candidates (modulus-1, modulus, modulus+1, 0, masked-bit variants), digit = |x|-1 / |x|, tuples recombining to r-1, r, r+1, constant bytes, sign bytes"));
-        s.batches.push_back(mk("sample", q ? 40 : 2000, {"C/portable32"}, "single", {{"focus", focus}}, "32-bit words: the exponent decomposition uses a hand-written long division there"));
-        s.batches.push_back(mk("sample", q ? 40 : 1500, ALL, "crossrep", {{"focus", focus}}, "platform independence: identical results and identical stream consumption on every replica"));
+        s.batches.push_back(mk("sample", q ? 3000 : 100000, FAST, "single", {{"focus", focus}}, "stream faults: rejection storms, boundary candidates (modulus-1, modulus, modulus+1, 0, masked-bit variants), digit = |x|-1 / |x|, tuples recombining to r-1, r, r+1, constant bytes, sign bytes"));
+        s.batches.push_back(mk("sample", q ? 100 : 4000, {"C/portable32"}, "single", {{"focus", focus}}, "32-bit words: the exponent decomposition uses a hand-written long division there"));
+        s.batches.push_back(mk("sample", q ? 100 : 3000, ALL, "crossrep", {{"focus", focus}}, "platform independence: identical results and identical stream consumption on every replica"));
         return true;
     }
     if (prop == "C16") {
         s.rule = "case = one LQ-IBE interaction: (op, requested key length, master scalar >= r?, negative variant: other identity / other master / substituted ciphertext / damaged ciphertext read without validation / marshalling hop, stream faults attached); non-trivial iff a fault or negative variant is involved or the master scalar is unreduced";
-        s.batches.push_back(mk("lq", q ? 400 : 40000, FAST, "single", {}, "PKG, sender and receiver on a seed-chosen replica and view; master scalar delivered through the store with bit flips"));
-        s.batches.push_back(mk("lq", q ? 32 : 1500, {"C/portable32"}, "single", {}, "32-bit words"));
-        s.batches.push_back(mk("lq", q ? 32 : 1500, ALL, "crossrep", {}, "sender and receiver built with different back ends hash identical bytes"));
+        s.batches.push_back(mk("lq", q ? 3000 : 100000, FAST, "single", {}, "PKG, sender and receiver on a seed-chosen replica and view; master scalar delivered through the store with bit flips"));
+        s.batches.push_back(mk("lq", q ? 64 : 3000, {"C/portable32"}, "single", {}, "32-bit words"));
+        s.batches.push_back(mk("lq", q ? 64 : 3000, ALL, "crossrep", {}, "sender and receiver built with different back ends hash identical bytes"));
         return true;
     }
     if (prop == "C08") {
         s.rule = "case = one product or single pairing over reused pair records: the shape string of the call (a = affine pair, p = prepared pair, 0 suffix = pair with an identity member, in list order); non-trivial iff the list has more than one pair or contains an identity";
-        s.batches.push_back(mk("pairs", q ? 300 : 30000, FAST, "single", {}, "long-lived record arrays reused across products: slices, re-pointing, re-preparing, identities, shared prepared points"));
-        s.batches.push_back(mk("pairs", q ? 24 : 1000, {"C/portable32"}, "single", {}, "32-bit words"));
+        s.batches.push_back(mk("pairs", q ? 2500 : 80000, FAST, "single", {}, "long-lived record arrays reused across products: slices, re-pointing, re-preparing, identities, shared prepared points"));
+        s.batches.push_back(mk("pairs", q ? 60 : 3000, {"C/portable32"}, "single", {}, "32-bit words"));
         return true;
     }
     if (prop == "C03") {
         s.rule = "case = (primitive op, output aliases first operand?, returned carry/borrow flag) for the register machine; for system histories the cases of the scenario run in lock-step; distinct by that tuple; every case executes on all five replicas with identical inputs and the logs (all written registers, flags, marshalled bytes, stream consumption) must be identical";
-        s.batches.push_back(mk("prim", q ? 200 : 20000, ALL, "crossrep", {{"ops", q ? 400 : 600}}, "layer 1: register machine over BigInt<384/768/256/512> and FpBase<384/256> primitives with boundary pair constructors, results feeding later ops"));
-        s.batches.push_back(mk("wkd", q ? 24 : 1500, ALL, "crossrep", {{"maxops", 14}}, "layer 2: WKD-IBE histories in lock-step on all replicas, same random stream"));
-        s.batches.push_back(mk("lq", q ? 16 : 1000, ALL, "crossrep", {}, "layer 2: LQ-IBE histories"));
-        s.batches.push_back(mk("sample", q ? 24 : 1500, ALL, "crossrep", {}, "layer 2: samplers, hashing, GT exponentiation (rejection decisions must agree)"));
-        s.batches.push_back(mk("enc", q ? 16 : 600, ALL, "crossrep", {}, "layer 2: encodings"));
-        s.batches.push_back(mk("pairs", q ? 16 : 600, ALL, "crossrep", {}, "layer 2: pairing products"));
-        s.batches.push_back(mk("group", q ? 24 : 1500, ALL, "crossrep", {}, "layer 2: group and target-group API"));
-        s.batches.push_back(mk("wkd", q ? 24 : 2000, {"A/bmi2-adx"}, "flipdispatch", {{"maxops", 14}}, "layer 3: the run-time dispatch pointers of replica A are swapped between the BMI2/ADX and baseline routines at seeded yield points inside operations; transcript must equal the undisturbed run"));
-        s.batches.push_back(mk("pairs", q ? 16 : 1000, {"A/bmi2-adx"}, "flipdispatch", {}, "layer 3: dispatch flips inside Miller loops"));
+        s.batches.push_back(mk("prim", q ? 1200 : 60000, ALL, "crossrep", {{"ops", q ? 400 : 600}}, "layer 1: register machine over BigInt<384/768/256/512> and FpBase<384/256> primitives with boundary pair constructors, results feeding later ops"));
+        s.batches.push_back(mk("wkd", q ? 80 : 3000, ALL, "crossrep", {{"maxops", 14}}, "layer 2: WKD-IBE histories in lock-step on all replicas, same random stream"));
+        s.batches.push_back(mk("lq", q ? 60 : 2000, ALL, "crossrep", {}, "layer 2: LQ-IBE histories"));
+        s.batches.push_back(mk("sample", q ? 80 : 3000, ALL, "crossrep", {}, "layer 2: samplers, hashing, GT exponentiation (rejection decisions must agree)"));
+        s.batches.push_back(mk("enc", q ? 48 : 1200, ALL, "crossrep", {}, "layer 2: encodings"));
+        s.batches.push_back(mk("pairs", q ? 48 : 1200, ALL, "crossrep", {}, "layer 2: pairing products"));
+        s.batches.push_back(mk("group", q ? 80 : 3000, ALL, "crossrep", {}, "layer 2: group and target-group API"));
+        s.batches.push_back(mk("wkd", q ? 80 : 4000, {"A/bmi2-adx"}, "flipdispatch", {{"maxops", 14}}, "layer 3: the run-time dispatch pointers of replica A are swapped between the BMI2/ADX and baseline routines at seeded yield points inside operations; transcript must equal the undisturbed run"));
+        s.batches.push_back(mk("pairs", q ? 60 : 2000, {"A/bmi2-adx"}, "flipdispatch", {}, "layer 3: dispatch flips inside Miller loops"));
         return true;
     }
     if (prop == "C19") {
         s.level = "other";
         s.rule = "two parts. (1) static ABI facts evaluated at run time in every replica (64- and 32-bit words, asm and portable): sizeof/alignof/offsetof of every struct in the C headers against the C++ type it is cast to, the prepared-point coefficient count, every exported constant against the C++ value (and a few against values written down in the simulator). (2) view refinement by simulation: every history of the other scenarios is executed once through the C API and once through the C++ API on the same replica with the same random stream; the event logs (all outputs, return values, stream consumption) must be identical. case = ABI row / constant per replica, plus the cases of the histories; non-trivial as in those scenarios";
         register_static_phases(prop, s);
-        s.batches.push_back(mk("wkd", q ? 100 : 8000, FAST, "crossview", {}, "WKD-IBE histories, C view vs C++ view"));
+        s.batches.push_back(mk("wkd", q ? 300 : 12000, FAST, "crossview", {}, "WKD-IBE histories, C view vs C++ view"));
         s.batches.push_back(mk("wkd", 80, {"A/bmi2-adx", "B/portable64"}, "crossview", {{"hopenum", 1}, {"stride", q ? 11 : 3}}, "every marshal/unmarshal/length wrapper: object kind x form x validating? x invalid element kinds, C view vs C++ view"));
         s.batches.push_back(mk("lq", 4, {"A/bmi2-adx", "B/portable64"}, "crossview", {{"hopenum", 1}}, "LQ-IBE marshal/unmarshal wrappers"));
-        s.batches.push_back(mk("lq", q ? 60 : 4000, FAST, "crossview", {}, "LQ-IBE histories"));
-        s.batches.push_back(mk("sample", q ? 60 : 4000, FAST, "crossview", {}, "samplers, hashing, GT operations"));
-        s.batches.push_back(mk("enc", q ? 40 : 2000, FAST, "crossview", {}, "encodings"));
-        s.batches.push_back(mk("pairs", q ? 40 : 2000, FAST, "crossview", {}, "pairing products"));
+        s.batches.push_back(mk("lq", q ? 200 : 8000, FAST, "crossview", {}, "LQ-IBE histories"));
+        s.batches.push_back(mk("sample", q ? 200 : 8000, FAST, "crossview", {}, "samplers, hashing, GT operations"));
+        s.batches.push_back(mk("enc", q ? 120 : 4000, FAST, "crossview", {}, "encodings"));
+        s.batches.push_back(mk("pairs", q ? 120 : 4000, FAST, "crossview", {}, "pairing products"));
         s.batches.push_back(mk("wkd", q ? 10 : 400, {"C/portable32"}, "crossview", {{"maxops", 10}}, "32-bit words"));
-        s.batches.push_back(mk("group", q ? 60 : 4000, ALL, "crossview", {}, "group and target-group API functions not used by the schemes (add, add_mixed, negate, double, multiply, equal, conversions, gt_add/negate/double/equal) incl. raw Fq12 inputs outside GT"));
+        s.batches.push_back(mk("group", q ? 200 : 8000, ALL, "crossview", {}, "group and target-group API functions not used by the schemes (add, add_mixed, negate, double, multiply, equal, conversions, gt_add/negate/double/equal) incl. raw Fq12 inputs outside GT"));
         return true;
     }
     if (prop == "C20") {
         s.rule = "case = one concurrent execution: (multiset of op kinds per task, switch-probability knob, number of context switches capped at 50); distinct by that tuple; non-trivial iff at least one preemption happened inside a library call. Plus the static link-surface audit rows (one per undefined / writable symbol per build configuration)";
         register_static_phases(prop, s);
-        s.batches.push_back(mk("conc", q ? 96 : 12000, FAST, "single", {}, "2-6 real threads under the serialising seeded scheduler; write trap on the replica image and the shared-input arena; libc traps"));
-        s.batches.push_back(mk("conc", q ? 6 : 300, {"C/portable32"}, "single", {}, "32-bit words"));
+        s.batches.push_back(mk("conc", q ? 400 : 40000, FAST, "single", {}, "2-6 real threads under the serialising seeded scheduler; write trap on the replica image and the shared-input arena; libc traps"));
+        s.batches.push_back(mk("conc", q ? 12 : 600, {"C/portable32"}, "single", {}, "32-bit words"));
         return true;
     }
     err = "no check registered for property " + prop;
